@@ -80,7 +80,7 @@ static long long rank_of(const Universe &u, int idx) {
         sorted.erase(std::unique(sorted.begin(), sorted.end()), sorted.end());
         return std::lower_bound(sorted.begin(), sorted.end(), low[idx]) - sorted.begin();
     }
-    default: return (long long)(intptr_t)u.ptrs[idx];
+    default: return (long long)((uintptr_t)u.ptrs[idx] ^ ((uintptr_t)1 << 63));   // address order (unsigned), kept in a signed rank
     }
 }
 
@@ -363,7 +363,9 @@ static Universe make_universe(Cmp cmp, const std::vector<int> &raw) {
                                    1 << 30, -(1 << 30), 1000000007, -1000000007};
     static const char *words[] = {"a", "A", "b", "B", "ab", "AB", "Ab", "abc", "ABD", "z", "Z", "", "m", "M", "iauth", "IAUTH", "Iauth_x", "iauth_x", "0", "_",
                                   // ASCII case folding only: [ \\ ] ^ are not the upper-case forms of { | } ~
-                                  "chan[1]", "chan{1}", "a\\b", "a|b", "x^", "x~", "x]", "x}", "`", "@", "[", "{"};
+                                  "chan[1]", "chan{1}", "a\\b", "a|b", "x^", "x~", "x]", "x}", "`", "@", "[", "{",
+                                  // bytes above 0x7f compare as unsigned characters (strcasecmp in the C locale)
+                                  "\xc3\xa9clair", "na\xefve", "nab", "\xff", "z\x80", "zz", "\x80"};
     std::set<long long> seen;
     for (int r : raw) {
         switch (cmp) {
@@ -372,7 +374,13 @@ static Universe make_universe(Cmp cmp, const std::vector<int> &raw) {
             u.ints.push_back(v); break;
         }
         case CMP_CHARP: u.strs.push_back(words[(unsigned)r % (sizeof(words) / sizeof(words[0]))]); break;
-        case CMP_VOIDP: u.ptrs.push_back(g_arena + ((unsigned)r % 64) * 8); break;
+        case CMP_VOIDP: {
+            // pointer keys are compared as addresses over their whole range, top bit included (never dereferenced)
+            static const uintptr_t far[] = {1, 8, (uintptr_t)-1, (uintptr_t)-8, (uintptr_t)1 << 63, ((uintptr_t)1 << 63) - 8, ((uintptr_t)1 << 63) + 8, (uintptr_t)0x00007fffffffe000ULL};
+            if ((r & 7) == 0) u.ptrs.push_back((void *)far[(unsigned)(r >> 3) % (sizeof(far) / sizeof(far[0]))]);
+            else u.ptrs.push_back(g_arena + ((unsigned)r % 64) * 8);
+            break;
+        }
         case CMP_PTR: {
             // slots of sizeof(set_node)+sizeof(Elem) in the arena; key = data address
             size_t slot = sizeof(struct set_node) + sizeof(Elem);
